@@ -16,6 +16,7 @@ from . import core_tree as tr
 from . import algos_risk as rk
 from . import algos_close as cl
 from . import reports as rp
+from . import algos_roll as rl
 
 UPD = [("date", "date"), ("data", "optdata"), ("inow", "optint")]
 
@@ -82,6 +83,8 @@ def build():
         reg(c, v)
     for c, v in rp.contracts():
         reg(c, v)
+    for c, v in rl.contracts():
+        reg(c, v)
     for c, v in sel.contracts():
         reg(c, v)
         if v is None:
@@ -112,6 +115,7 @@ def build():
     loops.update(rk.LOOPS)
     loops.update(cl.LOOPS)
     loops.update(rp.LOOPS)
+    loops.update(rl.LOOPS)
     # state merging at if-joins keeps StrategyBase.update at tens of paths; for the non-linear sizing
     # search of allocate separate paths are much easier for the solver
     options = {"bt.core.SecurityBase.allocate": dict(merge=False)}
